@@ -288,6 +288,36 @@ fn body_fast_check(slots: usize) -> impl Fn(&Ch) -> Run + Sync + Send {
   }
 }
 
+/// Graphs with a WebAssembly module that has imports of its own.
+fn body_wasm(ch: &Ch) -> Run {
+  let mut run = Run::default();
+  let kind = *ch.pick("graph_kind", &[GraphKind::All, GraphKind::CodeOnly, GraphKind::TypesOnly]);
+  let sched = Sched::new(SchedMode::Immediate);
+  let loader = ScriptedLoader::new(sched);
+  let (w, root) = crate::props::c01::wasm_world(ch, &loader);
+  let mut g = ModuleGraph::new(kind);
+  if build_graph(&mut g, vec![root.clone()], &loader, BuildCfg::default(), ch).is_err() {
+    run.violate("build-did-not-finish", "deadlock", w.describe.clone());
+    return run;
+  }
+  let view = SlotView::new(&g);
+  let root_sets = vec![vec![root.clone()], vec![url("https://x/m.wasm")], vec![url("https://x/a.ts"), url("https://x/m.wasm")], vec![url("https://x/missing.ts")]];
+  for roots in &root_sets {
+    for o in all_opts().into_iter().filter(|o| !o.prefer_fast_check) {
+      let case = || json!({"world": w.describe, "build_kind": format!("{kind:?}"), "walk_roots": roots.iter().map(|r| r.as_str()).collect::<Vec<_>>(), "options": format!("{o:?}")});
+      let skips = matches!(o.check_js, CheckJs::True);
+      run.evals += check_walk(&g, &view, roots, &o, &mut run, &case, skips);
+    }
+  }
+  run.state_key = hash_of(&(format!("{:?}{kind:?}", w.imports), w.via_ts));
+  run.nontrivial = !w.imports.is_empty();
+  run.outcome_key = hash_json(&obs(&g)["slots"]);
+  if ch.describe() {
+    run.sample = Some(w.describe.clone());
+  }
+  run
+}
+
 pub fn prop(tier: Tier) -> Prop {
   static ALL_ONLY: [GraphKind; 1] = [GraphKind::All];
   static ALL_KINDS: [GraphKind; 3] = [GraphKind::All, GraphKind::CodeOnly, GraphKind::TypesOnly];
@@ -314,6 +344,12 @@ pub fn prop(tier: Tier) -> Prop {
     ],
   };
   let mut parts = parts;
+  parts.push(Part {
+    name: "wasm-imports",
+    body: Box::new(body_wasm),
+    modes: vec![Mode::Full],
+    what: "graphs with a generated WebAssembly module that imports functions / memories / tables / globals / tags from present and absent specifiers, built with each graph kind, walked under 18 option sets from 4 root sets",
+  });
   parts.push(Part {
     name: "fast-check",
     body: Box::new(body_fast_check(2)),
